@@ -27,9 +27,14 @@ TWO_PI = 6.283185307179586
 
 RULE = ("x_compile: (device spec, compiler, source program) with the source drawn from two families - GBS form (S2gates incl. zero / "
         "missing / repeated / daggered, interferometer part as Interferometer, gate sequence or BipartiteGraphEmbed, symmetric or "
-        "deliberately asymmetric, full / split / partial measurement) and layout form with one optional mutation; non-trivial = "
+        "deliberately asymmetric, a stray Sgate / intra-half S2gate in exactly one half, measurement-only and net-identity sources, full / "
+        "split / partial measurement) and layout form with one optional mutation (incl. values outside a range by 4e-5 / 1e-4); devices: "
+        "2-12 modes, modes as integer or measurement-limit dictionary, gate_parameters complete / with a missing entry / with nested single "
+        "values / absent; compile with an explicit compiler or the device default, optionally optimize=True; non-trivial = "
         "compilation succeeded AND the compiled command list differs from the source AND >= 1 non-zero squeezer; "
-        "borealis / tdm_generic: non-trivial = compilation succeeded and (borealis) the parameter arrays were changed; "
+        "borealis / tdm_generic: non-trivial = compilation succeeded and (borealis) the parameter arrays were changed; borealis phases "
+        "are written in range by construction, arbitrary, or arbitrary and passed through tdm.utils.make_phases_compatible; tdm_generic "
+        "compiles on freshly reset compiler classes, or twice in a row without a reset; "
         "distinct = distinct JSON")
 ASSUMPTIONS = [
     "layout text is parsed with the third-party blackbird parser; conformance = equal per-mode sequences of (gate name, ordered "
@@ -53,11 +58,23 @@ ASSUMPTIONS = [
     "harness' own frame-phase derivation (theta_k[j] = phi_k floor(j / delay_k)) says that every compensated phase of loops 1, 2 "
     "lies at least 1e-6 inside the modulator range (otherwise the documented pi shift applies: conformance and outcome only)",
     "user-inserted loop offsets are only generated with the certificate's value (the documented use)",
+    "compile(device=..) without a compiler argument: Program.compile_info[1] must name the first entry of the device's compiler list, "
+    "'Xunitary' for an empty list (docstrings of Program.compile and Device.default_compiler)",
+    "device.modes as a dictionary {pnr_max, homodyne_max, heterodyne_max} (Program.assert_modes): a source whose MeasureFock / "
+    "MeasureHomodyne commands cover more modes than allowed must be refused; with an integer, a program with more modes must be refused",
+    "tdm.utils.to_args_dict -> make_phases_compatible -> to_args_list: squeezing / beamsplitter / loop-0 phase lists come back unchanged, "
+    "phases of loops 1, 2 unchanged or shifted by pi (mod 2 pi, 1e-9), and afterwards the harness' own frame-phase derivation finds every "
+    "compensated phase of loops 1, 2 inside the modulator range (1e-9)",
+    "tdm_generic: two compilations of one program for one device without a reset of the compiler class in between (the second one "
+    "meets the cached layout and graph) must give identical results",
     "x_compile sources are exactly symmetric between the two halves or asymmetric by >= 1e-3: the np.allclose tolerance (1e-5) within "
     "which Xunitary / Xcov regard the two unitaries as identical is not probed",
 ]
 REQUIRED_LABELS = {"all": ["compiler:Xstrict", "compiler:Xunitary", "compiler:Xcov", "rejected", "accepted", "zero_squeezing",
-                           "repeated_s2", "permutation_unitary", "dagger", "resynthesised"]}
+                           "repeated_s2", "permutation_unitary", "dagger", "resynthesised",
+                           # generator audit: each of these is produced some hundreds of times per quick run at every seed
+                           "compiler_arg:default", "modes:dict", "optimize", "two_digit_mode_index", "value_just_outside_documented_atol",
+                           "layout_without_target_line"]}
 
 # ----------------------------------------------------------------------------------------------
 # device data copied verbatim from tests/frontend/compilers/conftest.py
@@ -263,6 +280,9 @@ def build_x_spec(dev):
     else:
         target = "X%d_vf" % N
         layout = x_layout(N, target)
+    if not dev.get("layout_target", True):
+        # no target line in the layout: validate_gate_parameters then takes the target of the specification
+        layout = "\n".join(ln for ln in layout.split("\n") if not ln.startswith("target "))
     if dev["gp"] == "verbatim":
         gp = {k: list(v) for k, v in X8_GATE_PARAMETERS.items()}
     elif dev["gp"] == "none":
@@ -279,7 +299,12 @@ def build_x_spec(dev):
             gp["phase_%d" % k] = list(ph_items)
         for i in range(N):
             gp["final_phase_%d" % i] = list(ph_items)
-    return {"target": target, "layout": layout, "modes": N, "compiler": list(dev.get("compilers", [])), "gate_parameters": gp}
+    if gp and dev.get("gp_nested"):  # single allowed values written as one-element lists (Device.gate_parameters accepts both)
+        gp = {k: [x if isinstance(x, (list, tuple)) else [x] for x in v] for k, v in gp.items()}
+    if gp and dev.get("gp_drop") in gp:  # a placeholder of the layout without an entry in gate_parameters
+        gp.pop(dev["gp_drop"])
+    modes = dict(dev["modes"]) if isinstance(dev.get("modes"), dict) else N  # int, or the documented measurement-limit dictionary
+    return {"target": target, "layout": layout, "modes": modes, "compiler": list(dev.get("compilers", [])), "gate_parameters": gp}
 
 
 def _sq_items(dev, i):
@@ -533,7 +558,8 @@ X_COMPILERS = ["Xstrict", "Xunitary", "Xcov"]
 
 @st.composite
 def dev_strategy(draw):
-    kind = draw(st.sampled_from(["X8", "X8", "X8", "gen4", "gen4", "gen6", "gen6", "gen8", "gen2"]))
+    # gen12: two-digit mode indices (10, 11) and placeholder names (phase_10 .. phase_29, final_phase_10 / _11)
+    kind = draw(st.sampled_from(["X8", "gen12", "X8", "X8", "gen4", "gen4", "gen6", "gen6", "gen8", "gen2", "X8", "gen4", "gen6"]))
     N = 8 if kind == "X8" else int(kind[3:])
     h = N // 2
     gp = draw(st.sampled_from((["verbatim"] * 4 if kind == "X8" else []) + ["gen"] * 10 + ["none", "empty"]))
@@ -554,6 +580,23 @@ def dev_strategy(draw):
            "compilers": draw(st.sampled_from([[], [], ["Xcov"], ["Xstrict"], ["Xunitary", "Xcov"]]))}
     if gp == "verbatim":
         dev.update(sq=[[0, 1]], ph=[0, TWO_PI], ph_zero=True)
+    # device.modes: an integer (number of modes) or the documented dictionary of measurement limits (Program.assert_modes)
+    md = draw(st.sampled_from(["int"] * 11 + ["dict", "dict", "dict", "dict_tight"]))
+    if md == "dict":
+        dev["modes"] = {"pnr_max": N + draw(st.sampled_from([0, 0, 2, 4])), "homodyne_max": draw(st.sampled_from([0, 2])), "heterodyne_max": 0}
+    elif md == "dict_tight":
+        dev["modes"] = {"pnr_max": N - draw(st.sampled_from([1, 2, h])), "homodyne_max": draw(st.sampled_from([0, 2])), "heterodyne_max": 0}
+    if gp == "gen":
+        v = draw(st.sampled_from(["complete"] * 17 + ["drop", "nested", "nested"]))
+        if v == "drop":
+            npairs = len(clements_pairs(h))
+            names = ["squeezing_amplitude_%d" % draw(st.integers(0, h - 1)), "final_phase_%d" % draw(st.integers(0, N - 1))]
+            names += ["phase_%d" % draw(st.integers(0, 2 * npairs - 1))] if npairs else []
+            dev["gp_drop"] = draw(st.sampled_from(names))
+        elif v == "nested":
+            dev["gp_nested"] = True
+    if draw(st.integers(0, 11)) == 0:
+        dev["layout_target"] = False
     return dev
 
 
@@ -586,6 +629,9 @@ def _gate_seq(draw, h, allow_dagger):
             params = [draw(gen.angle()), draw(gen.angle())]
         flags = {"H": True} if allow_dagger and draw(st.integers(0, 3)) == 0 else {}
         out.append([name, params, modes, flags])
+        if name == "Rgate" and draw(st.integers(0, 2)) == 0:
+            # a second rotation directly behind the first one (incl. its exact inverse): compile(optimize=True) merges / cancels them
+            out.append(["Rgate", [draw(st.sampled_from([-params[0], params[0], 0.5]))], list(modes), {}])
     return out
 
 
@@ -634,7 +680,11 @@ def gbs_source(draw, dev, n):
         elif kind == "zero":
             parts = [(0.0, False)]
         elif kind == "bad_value":
-            parts = [(t + 0.21, False)]
+            # 4e-5, 1e-4: outside by only a few times the documented absolute tolerance (1e-5) of the range test
+            off = draw(st.sampled_from([0.21, 1e-4, 0.21, 4e-5]))
+            parts = [(t + off, False)]
+            if off < 0.1:
+                meta["barely_out"] = "squeezing"
         elif kind == "single_dag":
             parts = [(draw(st.sampled_from([t, -t])), True)]
         elif kind in ("split", "split_dag"):
@@ -682,7 +732,51 @@ def gbs_source(draw, dev, n):
     ops_ = [op for _, op in s2]
     # an operation caught between two squeezers of the same pair; the numbers written in the three commands add up to an
     # allowed squeezing value (the true net squeezing does not)
-    special = draw(st.sampled_from(["none"] * 12 + ["stuck", "stuck", "pre_op"]))
+    special = draw(st.sampled_from(["none"] * 14 + ["stuck", "stuck", "pre_op", "one_half", "one_half", "one_half", "empty", "identity_ops"]))
+    stray, stray_where = [], None
+    if special == "one_half":
+        # a non-bipartite part (single-mode squeezing / two-mode squeezing inside one half) that sits in ONE half of the register only.
+        # "exact": the pairs of the touched modes carry no two-mode squeezing, so the other half stays completely free of internal
+        # coupling (adjacency blocks B00 != 0, B11 == 0 or the other way round); "mixed": the pair squeezers stay
+        half = draw(st.sampled_from([0, h]))
+        what = draw(st.sampled_from(["sgate", "sgate", "s2_inside", "sgates_all"] if h > 1 else ["sgate"]))
+        amp = draw(st.sampled_from([0.3, -0.4, 0.8, 1e-3]))
+        sphi = draw(st.sampled_from([0.0, 0.0, 0.7]))
+        i = draw(st.integers(0, h - 1))
+        if what == "sgate":
+            touched, stray = [i], [["Sgate", [amp, sphi], [half + i], {}]]
+        elif what == "s2_inside":
+            j = (i + draw(st.integers(1, h - 1))) % h
+            touched, stray = [i, j], [["S2gate", [amp, sphi], [half + i, half + j], {}]]
+        else:
+            touched, stray = list(range(h)), [["Sgate", [amp, sphi], [half + k], {}] for k in range(h)]
+        exact = draw(st.integers(0, 3)) > 0
+        if exact:
+            tm = {m for k in touched for m in (k, k + h)}
+            ops_ = [op for op in ops_ if not (op[0] == "S2gate" and set(op[2]) & tm)]
+            sgate_pairs = [(k, t) for k, t in sgate_pairs if k not in touched]
+        stray_where = draw(st.sampled_from(["after_s2", "after_s2", "first", "last"]))
+        if stray_where == "first":
+            ops_ = stray + ops_
+        elif stray_where == "after_s2":
+            ops_ = ops_ + stray
+        meta.update(one_half="exact" if exact else "mixed", stray=what + ("_idler" if half else "_signal"))
+    if special == "empty":  # nothing but the measurement
+        ops_, sgate_pairs = [], []
+        meta["special"] = "measure_only"
+    if special == "identity_ops":  # commands whose net effect is the identity
+        ops_, sgate_pairs = [], []
+        for _ in range(draw(st.integers(1, 3))):
+            i = draw(st.integers(0, h - 1))
+            g = draw(st.sampled_from(["S2gate", "Rgate", "BSgate"] if h > 1 else ["S2gate", "Rgate"]))
+            if g == "S2gate":
+                ops_.append(["S2gate", [0.0, 0.0], [i, i + h], {}])
+            elif g == "Rgate":
+                ops_ += [["Rgate", [0.0], [i], {}], ["Rgate", [0.0], [i + h], {}]]
+            else:
+                j = (i + 1) % h
+                ops_ += [["BSgate", [0.0, 0.0], [i, j], {}], ["BSgate", [0.0, 0.0], [i + h, j + h], {}]]
+        meta["special"] = "identity_ops"
     if special == "stuck":
         i = draw(st.integers(0, h - 1))
         t = draw(_allowed_nonzero(_sq_items(dev, i)))
@@ -714,6 +808,10 @@ def gbs_source(draw, dev, n):
     # interferometer part
     ureal = draw(st.sampled_from(["interf", "interf", "interf", "gates", "gates", "none"]))
     asym = draw(st.sampled_from(["none"] * 10 + ["idler_other", "idler_phase", "cross", "idler_missing"]))
+    if special in ("empty", "identity_ops"):
+        ureal, asym = "none", "none"
+    elif special == "one_half":
+        asym = "none"  # the stray squeezing is the only reason for a refusal
     meta["asym"] = asym
     ukind = "identity"
     sig, idl = [], []
@@ -750,7 +848,11 @@ def gbs_source(draw, dev, n):
     if asym == "cross":
         body.insert(draw(st.integers(0, len(body))), ["BSgate", [0.4, 0.0], [0, h], {}])
     ops_ += body
+    if stray_where == "last":
+        ops_ += stray
     mkind, meas = draw(_measure_part(n))
+    if special in ("empty", "identity_ops", "one_half") and mkind != "all":
+        mkind, meas = "all", [["MeasureFock", [], list(range(n)), {}]]
     meta.update(unitary=ukind, measure=mkind)
     return ops_ + meas, meta, None
 
@@ -786,7 +888,7 @@ def bipartite_source(draw, dev, n):
 
 
 LAYOUT_MUTATIONS = ["none"] * 6 + ["reorder"] * 4 + ["split_measure", "s2_phase", "dagger", "dagger", "idler_phase", "phase_out", "sq_out",
-                                                     "swap_modes", "drop", "extra", "near_range", "bs_for_mz"]
+                                                     "swap_modes", "drop", "extra", "near_range", "bs_for_mz", "barely_out", "barely_out", "split_final", "split_final"]
 
 
 @st.composite
@@ -841,9 +943,13 @@ def layout_source(draw, dev, n):
     elif mut == "idler_phase" and pairs:
         k = h + len(pairs) + draw(st.integers(0, len(pairs) - 1))
         ops_[k] = ["MZgate", [ops_[k][1][0] + 0.1, ops_[k][1][1]], ops_[k][2], {}]
-    elif mut in ("phase_out", "near_range"):
+    elif mut == "barely_out" and draw(st.booleans()):
+        # a squeezing amplitude outside by a few times the documented absolute tolerance (1e-5) of the range test
+        k = draw(st.integers(0, h - 1))
+        ops_[k] = ["S2gate", [ops_[k][1][0] + draw(st.sampled_from([4e-5, 1e-4, -4e-5])), 0.0], ops_[k][2], {}]
+    elif mut in ("phase_out", "near_range", "barely_out"):
         k = draw(st.integers(h, len(ops_) - 2))
-        off = 0.5 if mut == "phase_out" else 3e-6
+        off = 0.5 if mut == "phase_out" else (3e-6 if mut == "near_range" else draw(st.sampled_from([4e-5, 1e-4])))
         v = hi + off if draw(st.booleans()) else lo - off
         twin = {tuple(m + h for m in ops_[k][2]), tuple(m - h for m in ops_[k][2])}
         for kk in range(h, len(ops_) - 1):  # the same placeholder / the final phase of the partner mode as well
@@ -862,6 +968,10 @@ def layout_source(draw, dev, n):
     elif mut == "bs_for_mz" and pairs:
         k = h + draw(st.integers(0, 2 * len(pairs) - 1))
         ops_[k] = ["BSgate", ops_[k][1], ops_[k][2], {}]
+    elif mut == "split_final":
+        k = len(ops_) - 2 - draw(st.integers(0, n - 1))  # one of the final Rgates
+        a = draw(st.sampled_from([0.25, 1.0, ops_[k][1][0]]))
+        ops_[k:k + 1] = [["Rgate", [ops_[k][1][0] - a], ops_[k][2], {}], ["Rgate", [a], ops_[k][2], {}]]
     return ops_, {"shape": "layout", "mutation": mut, "unitary": "layout", "asym": "none", "measure": "all"}, None
 
 
@@ -888,6 +998,17 @@ def x_case(draw):
         extra.append(pat)
     case = {"dev": dev, "n": n, "compiler": compiler, "ops": src, "meta": meta, "sub_modes": sub, "patterns4": extra,
             "hbar": draw(st.sampled_from([2.0, 2.0, 2.0, 1.0, 0.5]))}
+    # compile(device=..) without a compiler argument: the documented default is the first entry of the device's compiler list,
+    # "Xunitary" when the list is empty
+    if draw(st.integers(0, 6)) < 2:
+        others = [c for c in X_COMPILERS if c != compiler]
+        if compiler == "Xunitary" and draw(st.booleans()):
+            dev["compilers"] = []
+        else:
+            dev["compilers"] = [compiler] + draw(st.sampled_from([[], others[:1], others[1:], others, others[::-1]]))
+        case["compiler_arg"] = "default"
+    if draw(st.integers(0, 7)) == 0 or (meta.get("mutation") == "split_final" and draw(st.integers(0, 2)) > 0):
+        case["optimize"] = True
     if ref is not None:
         case["ref_ops"] = ref
     return case
@@ -980,9 +1101,29 @@ def _source_labels(case, gates):
         labs.append("dagger")
     if case["meta"].get("unitary") in ("perm", "permdiag"):
         labs.append("permutation_unitary")
-    for key in ("unitary", "asym", "measure", "mutation", "stuck"):
+    for key in ("unitary", "asym", "measure", "mutation", "stuck", "one_half", "stray", "special", "barely_out"):
         if case["meta"].get(key) not in (None, "none"):
             labs.append("%s:%s" % (key, case["meta"][key]))
+    if case["meta"].get("one_half"):
+        labs.append("non_bipartite_part_in_one_half")
+    if case["meta"].get("mutation") == "barely_out" or case["meta"].get("barely_out"):
+        labs.append("value_just_outside_documented_atol")
+    if case.get("compiler_arg", "explicit") == "default":
+        labs += ["compiler_arg:default", "default_compiler_list:%d" % len(case["dev"].get("compilers", []))]
+    if case.get("optimize"):
+        labs.append("optimize")
+    if isinstance(case["dev"].get("modes"), dict):
+        labs.append("modes:dict" + ("_tight" if case["dev"]["modes"]["pnr_max"] < case["dev"]["N"] else ""))
+    if case["dev"].get("gp_drop"):
+        labs.append("gp:placeholder_without_entry")
+    if case["dev"].get("gp_nested"):
+        labs.append("gp:nested_single_values")
+    if not case["dev"].get("layout_target", True):
+        labs.append("layout_without_target_line")
+    if {m for g in gates for m in g[2]} != set(range(case["n"])):
+        labs.append("source_leaves_modes_untouched")
+    if any(m >= 10 for g in gates for m in g[2]):
+        labs.append("two_digit_mode_index")
     if case["n"] != case["dev"]["N"]:
         labs.append("modes_differ_from_device")
     if case.get("hbar", 2.0) != 2.0:
@@ -997,6 +1138,8 @@ def _must_accept(case, layout_ops, gp, src):
     dev = case["dev"]
     if case["n"] != dev["N"] or not gp:
         return False
+    if isinstance(dev.get("modes"), dict) and dev["modes"]["pnr_max"] < case["n"]:
+        return False  # more Fock measurements than the device allows: a documented refusal
     if any(s[0] not in ("S2gate", "MZgate", "Rgate", "MeasureFock") for s in src) or src[-1][0] != "MeasureFock":
         return False
     if conformance(layout_ops, gp, src):
@@ -1034,7 +1177,8 @@ def check_x(ctx, case):
     try:
         with sfrun.HbarCtx(case.get("hbar", 2.0)):
             prog = spec.build_program(n, src)
-            comp = prog.compile(device=Device(spec=sd), compiler=compiler)
+            kw = {"optimize": True} if case.get("optimize") else {}
+            comp = prog.compile(device=Device(spec=sd), compiler=compiler if case.get("compiler_arg", "explicit") == "explicit" else None, **kw)
     except (CircuitError, ValueError) as exc:
         ctx.note(case, False, labels + ["rejected", "rejected:" + type(exc).__name__])
         if must:
@@ -1067,17 +1211,33 @@ def check_x(ctx, case):
     if "atol" in kinds:
         labels.append("inside_only_by_documented_atol")
     ctx.note(case, nontrivial=resyn and nonzero, labels=labels)
+    # ---- (0) the compiler that was used, mode / measurement count limits (independent of gate_parameters)
+    if case.get("compiler_arg", "explicit") == "default":
+        used = (comp.compile_info or (None, None))[1]
+        if used != compiler:
+            return ctx.fail("default_compiler.wrong_compiler_used", "compile(device=..) without a compiler: the device lists %r (documented default: "
+                            "first entry, Xunitary for an empty list), but compile_info names %r" % (dev.get("compilers", []), used))
+    dmodes = dev.get("modes")
+    if isinstance(dmodes, dict):
+        n_fock = sum(len(s[2]) for s in src if s[0] == "MeasureFock")
+        n_hom = sum(len(s[2]) for s in src if s[0] == "MeasureHomodyne")
+        if n_fock > dmodes["pnr_max"] or n_hom > dmodes["homodyne_max"]:
+            return ctx.fail("measurement_limit_not_enforced", "the source measures %d modes with MeasureFock and %d with MeasureHomodyne, the device allows "
+                            "%d / %d, but compilation succeeded" % (n_fock, n_hom, dmodes["pnr_max"], dmodes["homodyne_max"]))
+    elif n > dev["N"]:
+        return ctx.fail("mode_limit_not_enforced", "a program with %d modes was compiled for a device with %d modes" % (n, dev["N"]))
     hard = [p for p in problems if p[0] != "atol"]
     if hard:
         kind, detail = hard[0]
         if stuck:
             return ctx.fail("F18.xunitary.non_s2_op_inside_squeezer_block", "command %s sits between two S2gates; compiled circuit: %s" % (gates[stuck[0]][:3], detail))
         if not gp and kind in ("sequence", "inconsistent", "dagger"):
-            return ctx.fail("conformance.no_layout_check_without_gate_parameters", "device specification without gate_parameters: %s returned a "
-                            "circuit that does not match the device layout (%s)" % (compiler, detail))
-        if kind == "dagger":
+            # open finding X2; the returned circuit may in addition be a different experiment than the source: fall through to (3)
+            ctx.fail("conformance.no_layout_check_without_gate_parameters", "device specification without gate_parameters: %s returned a "
+                     "circuit that does not match the device layout (%s)" % (compiler, detail))
+        elif kind == "dagger":
             return ctx.fail("conformance.daggered_gate_passes_validation", "%s: %s" % (compiler, detail))
-        if kind == "constant":
+        elif kind == "constant":
             # open finding X1 (a hard-coded layout argument is not compared): the returned circuit may still be a different experiment
             # than the source, which is a separate violation - fall through to (3) after reporting X1
             ctx.fail("conformance.hardcoded_layout_argument_not_checked.x_compilers", "%s: %s" % (compiler, detail))
@@ -1195,8 +1355,11 @@ class _LogGrab(logging.Handler):
 class grab_tdm_log:
     """collect (and keep off stderr) what the tdm compiler logs"""
 
+    def __init__(self, name="strawberryfields.compilers.tdm"):
+        self.name = name
+
     def __enter__(self):
-        self.lg = logging.getLogger("strawberryfields.compilers.tdm")
+        self.lg = logging.getLogger(self.name)
         self.old = (list(self.lg.handlers), self.lg.propagate)
         self.h = _LogGrab()
         self.lg.handlers = [self.h]
@@ -1237,13 +1400,20 @@ def borealis_case(draw):
     user = [draw(st.integers(0, 4)) == 0 for _ in range(3)]
     if draw(st.integers(0, 9)) == 0:
         user = [True, True, True]
-    mode = draw(st.sampled_from(["in_range"] * 4 + ["any"]))
+    mode = draw(st.sampled_from(["in_range", "via_utils", "any", "in_range", "via_utils", "in_range", "in_range", "any"]))
+    if mode == "via_utils":
+        # arbitrary target phases, made hardware compatible by the documented route tdm.utils.to_args_dict ->
+        # make_phases_compatible -> to_args_list (which assumes that the compiler inserts the loop offsets)
+        user = [False, False, False]
     th = frame_phases(lp, T)
     s = [draw(st.sampled_from([0.0, 0.3, 0.5, 1.0, 2.0])) if draw(st.booleans()) else draw(gen.fl(0.0, 1.2)) for _ in range(T)]
     arrays = [s]
     prev = np.zeros(T)
     for k in range(3):
-        if user[k] or (mode == "in_range" and k > 0):
+        if mode == "via_utils" and k > 0 and draw(st.booleans()):
+            # targets near the edges of the modulator range and in the out-of-range half
+            tgt = np.array([draw(st.sampled_from([PI / 2 - 0.01, -PI / 2 + 0.01, PI / 2 + 0.01, -PI / 2 - 0.01, 3.0, -3.0, 0.0])) for _ in range(T)])
+        elif user[k] or (mode == "in_range" and k > 0):
             tgt = np.array([draw(gen.fl(-PI / 2 + 0.01, PI / 2 - 0.01)) for _ in range(T)])
         else:
             tgt = np.array([draw(gen.fl(-PI, PI)) for _ in range(T)])
@@ -1258,11 +1428,16 @@ def borealis_case(draw):
         bs = [draw(gen.fl(0.0, PI / 2)) if bs_kind == "generic" else (0.0 if bs_kind == "open" else PI / 2) for _ in range(T)]
         arrays += [[float(x) for x in r], bs]
     mut = draw(st.sampled_from(["none"] * 8 + ["s_out", "bs_out", "wrong_gate", "swap_bs_modes"]))
+    if mode == "via_utils":
+        mut = "none"
     if mut == "s_out":
         arrays[0][draw(st.integers(0, T - 1))] = 2.5
     if mut == "bs_out":
         arrays[2 * draw(st.integers(1, 3))][draw(st.integers(0, T - 1))] = 2.0
-    return {"T": T, "loop_phases": lp, "user_offsets": user, "arrays": arrays, "mutation": mut}
+    case = {"T": T, "loop_phases": lp, "user_offsets": user, "arrays": arrays, "mutation": mut}
+    if mode == "via_utils":
+        case["prep"] = "make_phases_compatible"
+    return case
 
 
 def _borealis_program(case):
@@ -1298,6 +1473,38 @@ def check_borealis(ctx, case):
     sd = borealis_spec()
     layout_ops = parse_layout(sd["layout"])
     labels = ["compiler:borealis", "T:%d" % T, "user_offsets:%d" % sum(user), "mutation:" + case["mutation"]]
+    prepped = case.get("prep") == "make_phases_compatible"
+    if prepped:
+        # documented route to hardware-applicable phases: to_args_dict -> make_phases_compatible -> to_args_list.  Documented effect: "adds a
+        # pi offset to the phase-gate arguments that cannot be applied by the Borealis modulators" (loops 1, 2), nothing else changes
+        from strawberryfields.tdm import utils as tdm_utils
+
+        labels.append("prep:make_phases_compatible")
+        try:
+            with grab_tdm_log("strawberryfields.tdm.utils"):
+                pdev = Device(spec=sd, cert=borealis_cert(lp))
+                gd = tdm_utils.to_args_dict([list(a) for a in arrays], pdev)
+                out = tdm_utils.to_args_list(tdm_utils.make_phases_compatible(gd, pdev), pdev)
+            out = [[float(x) for x in a] for a in out]
+        except Exception as exc:  # pylint: disable=broad-except
+            ctx.note(case, True, labels + ["crashed"])
+            return ctx.crash(exc, "tdm.utils.make_phases_compatible")
+        if len(out) != len(arrays) or any(len(a) != T for a in out):
+            ctx.note(case, True, labels)
+            return ctx.fail("tdm_utils.argument_list_shape", "to_args_dict -> make_phases_compatible -> to_args_list returned %d lists of lengths %r for 7 "
+                            "lists of length %d" % (len(out), [len(a) for a in out][:8], T))
+        for k in range(len(arrays)):
+            dlt = np.abs(_wrap(np.asarray(out[k]) - np.asarray(arrays[k])))
+            is_phase = k in (3, 5)  # the phase-gate arguments of loops 1 and 2
+            bad = [j for j in range(T) if not (dlt[j] < 1e-9 or (is_phase and abs(dlt[j] - PI) < 1e-9))] if k % 2 else \
+                  [j for j in range(T) if out[k][j] != arrays[k][j]]
+            if bad:
+                ctx.note(case, True, labels)
+                return ctx.fail("tdm_utils.make_phases_compatible.changes_other_than_pi_shifts", "argument list %d, time bin %d: %r became %r"
+                                % (k, bad[0], arrays[k][bad[0]], out[k][bad[0]]))
+        shifted = sum(int(abs(abs(x) - PI) < 1e-9) for k in (3, 5) for x in _wrap(np.asarray(out[k]) - np.asarray(arrays[k])))
+        labels.append("prep_shifted_some" if shifted else "prep_shifted_none")
+        arrays = out
     # harness' own prediction: which compensated phases leave the modulator range (pi shift documented for loops 1, 2)
     th = frame_phases(lp, T)
     prev = np.zeros(T)
@@ -1311,11 +1518,15 @@ def check_borealis(ctx, case):
         prev = th[k]
     exact = margin > 1e-6
     labels.append("in_range_by_construction" if exact else ("boundary" if margin > -1e-6 else "needs_pi_shift"))
+    if prepped and margin < -1e-9:
+        ctx.note(case, True, labels)
+        return ctx.fail("tdm_utils.make_phases_compatible.phase_left_out_of_range", "after make_phases_compatible the compensated phases of loops 1, 2 (own "
+                        "derivation theta_k[j] = phi_k floor(j / delay_k)) still leave the modulator range by %.3g" % -margin)
     partial = any((not user[k]) and user[k + 1] and lp[k] != 0 for k in range(2))
     reset_compilers()
     try:
         with grab_tdm_log() as log:
-            prog = _borealis_program(case)
+            prog = _borealis_program(dict(case, arrays=arrays))
             src = tdm_specs(prog.circuit)
             comp = prog.compile(device=Device(spec=sd, cert=borealis_cert(lp)))
     except (CircuitError, ValueError) as exc:
@@ -1426,7 +1637,7 @@ def tdm_case(draw):
     # the program
     T = draw(st.integers(1, 4))
     mut = draw(st.sampled_from(["none"] * 8 + ["arr_out", "arr_out", "const_differs", "const_by_array", "const_by_array", "array_by_const", "dagger",
-                                              "swap_order", "bs_modes", "wrong_gate", "too_long", "concurrent", "near_range"]))
+                                              "swap_order", "bs_modes", "wrong_gate", "too_long", "concurrent", "near_range", "barely_out", "barely_out"]))
     if mut == "too_long":
         T = tmax + 1
     arrays, pops = [], []
@@ -1450,9 +1661,10 @@ def tdm_case(draw):
                     ps.append(_in_range_value(draw, items))
                     continue
                 vals = [_in_range_value(draw, items) for _ in range(T)]
-                if here and mut in ("arr_out", "near_range"):
+                if here and mut in ("arr_out", "near_range", "barely_out"):
                     hi = max(float(it[-1]) if isinstance(it, (list, tuple)) else float(it) for it in items)
-                    vals[draw(st.integers(0, T - 1))] = hi + (0.5 if mut == "arr_out" else 3e-6)
+                    # barely_out: a few times the documented absolute tolerance (1e-5) of the range test
+                    vals[draw(st.integers(0, T - 1))] = hi + (0.5 if mut == "arr_out" else (3e-6 if mut == "near_range" else draw(st.sampled_from([4e-5, 1e-4]))))
                 arrays.append(vals)
                 ps.append(["arr", len(arrays) - 1])
         flags = {"H": True} if mut == "dagger" and pick is not None and pick[0] == i and gate in ("Sgate", "BSgate", "Rgate") else {}
@@ -1465,7 +1677,11 @@ def tdm_case(draw):
     if mut == "swap_order":
         i = draw(st.integers(0, len(pops) - 3))
         pops[i], pops[i + 1] = pops[i + 1], pops[i]
-    return {"compiler": compiler, "layout": lay, "T": T, "n_prog": N + 1 if mut == "concurrent" else N, "arrays": arrays, "ops": pops, "mutation": mut}
+    # statefulness of the class-level layout / graph cache (Compiler.init_circuit / .graph): "twice" = the same program is compiled a
+    # second time for the same device without a reset of the compiler class in between
+    session = draw(st.sampled_from(["fresh", "fresh", "twice"]))
+    return {"compiler": compiler, "layout": lay, "T": T, "n_prog": N + 1 if mut == "concurrent" else N, "arrays": arrays, "ops": pops, "mutation": mut,
+            "session": session}
 
 
 def _tdm_program(case):
@@ -1489,22 +1705,33 @@ def check_tdm(ctx, case):
     from strawberryfields.program_utils import CircuitError
 
     lay, compiler, T = case["layout"], case["compiler"], case["T"]
+    session = case.get("session", "fresh")
     sd = {"target": lay["target"], "layout": tdm_layout_text(lay), "modes": {"concurrent": lay["N"], "spatial": 1, "temporal_max": lay["tmax"]},
           "compiler": [compiler], "gate_parameters": dict(lay["gp"])}
     layout_ops = parse_layout(sd["layout"])
-    labels = ["compiler:" + compiler, "mutation:" + case["mutation"], "template_modes:%d" % lay["N"]]
+    labels = ["compiler:" + compiler, "mutation:" + case["mutation"], "template_modes:%d" % lay["N"], "session:" + session]
     src_specs = [[g, [tuple(x) if isinstance(x, list) else float(x) for x in ps], list(m), dict(f)] for g, ps, m, f in case["ops"]]
     src_ok = (not conformance(layout_ops, sd["gate_parameters"], src_specs, case["arrays"]) and T <= lay["tmax"] and case["n_prog"] == lay["N"]
               and len({tuple(a) for a in case["arrays"]}) == len(case["arrays"]))
     if src_ok:
         labels.append("source_in_layout_form")
     reset_compilers()
+    first = None
     try:
         with grab_tdm_log():
+            if session == "twice":
+                try:
+                    c0 = _tdm_program(case).compile(device=Device(spec=sd), compiler=compiler)
+                    first = ("ok", tdm_specs(c0.circuit), [[float(x) for x in np.ravel(np.asarray(a, dtype=float))] for a in c0.tdm_params])
+                except (CircuitError, ValueError) as exc:
+                    first = ("rejected", type(exc).__name__, None)
             prog = _tdm_program(case)
             comp = prog.compile(device=Device(spec=sd), compiler=compiler)
     except (CircuitError, ValueError) as exc:
         ctx.note(case, False, labels + ["rejected", "rejected:" + type(exc).__name__])
+        if first is not None and first[0] == "ok":
+            return ctx.fail("tdm.second_compile_differs.%s" % compiler, "the first compilation of the program succeeded, the second one (same device, no "
+                            "reset of the compiler in between) raised %s: %s" % (type(exc).__name__, str(exc)[:200]))
         if src_ok:
             return ctx.fail("rejects_layout_form.%s" % compiler, "the program is exactly the device layout with every parameter inside its range, "
                             "but compilation raised %s: %s" % (type(exc).__name__, str(exc)[:200]))
@@ -1517,6 +1744,9 @@ def check_tdm(ctx, case):
     cs = tdm_specs(comp.circuit)
     carr = [[float(x) for x in np.ravel(np.asarray(a, dtype=float))] for a in comp.tdm_params]
     ctx.note(case, nontrivial=True, labels=labels + ["accepted"])
+    if first is not None and (first[0] != "ok" or first[1] != cs or first[2] != carr):
+        return ctx.fail("tdm.second_compile_differs.%s" % compiler, "two compilations of the same program for the same device (no reset of the compiler "
+                        "in between) disagree: first %s, second accepted%s" % (first[0], "" if first[0] != "ok" else " with another circuit / arrays"))
     if T > lay["tmax"] or case["n_prog"] != lay["N"]:
         return ctx.fail("tdm.mode_count_not_checked", "%d time bins / %d concurrent modes accepted by a device with temporal_max %d / %d concurrent modes"
                         % (T, case["n_prog"], lay["tmax"], lay["N"]))
